@@ -85,10 +85,19 @@ def run_obligations(rep, obligations, jobs=None, validate=True):
                             "unparsed_bodies": [b.name for b in prog.errors][:5]}
         if validate:
             from ..mirsym import validate as _val
-            tv = _val.run(prog)
-            rep.extra["translator_validation"] = tv
-            rep.assumptions.append("translator validation: concrete-mode interpretation of the same MIR agrees with the native build on %d values "
-                                   "(%s) on this run" % (tv["values_compared"], ", ".join(tv["functions"])))
+            try:
+                tv = _val.run(prog)
+                rep.extra["translator_validation"] = tv
+                rep.assumptions.append("translator validation: concrete-mode interpretation of the same MIR agrees with the native build on %d values "
+                                       "(%s) on this run" % (tv["values_compared"], ", ".join(tv["functions"])))
+            except Inconclusive as e:
+                if "does not build" in str(e):
+                    rep.extra["translator_validation"] = {"skipped": "kernel wrappers do not compile against this tree (signature change)"}
+                    rep.inconclusive.append("translator validation skipped: the kernel replay wrappers do not compile against this tree: " + str(e)[-300:])
+                elif "translator broken" in str(e) and "no model for callee" in str(e):
+                    rep.inconclusive.append("translator validation: " + str(e)[:400])
+                else:
+                    raise
         results = runner.pmap(_call, obligations, jobs)
     out = []
     for (fn, arg), (status, r) in zip(obligations, results):
